@@ -88,6 +88,7 @@ func stdVerifiers(thorough bool) []verSpec {
 	for _, tr := range trs {
 		vs = append(vs, verSpec{ID: fmt.Sprintf("MapPollard(full,TR=%d).Verify", tr), Class: "MapPollard(full).Verify", Kind: "map", Full: true, TR: tr})
 	}
+	vs = append(vs, verSpec{ID: "MapPollard(full,TR=3).Verify(remember=true)", Class: "MapPollard(full).Verify", Kind: "map", Full: true, TR: 3, Remember: true})
 	for _, tr := range trs {
 		for _, rem := range []bool{false, true} {
 			vs = append(vs, verSpec{ID: fmt.Sprintf("MapPollard(partial:all,TR=%d).Verify(remember=%v)", tr, rem), Class: "MapPollard(partial).Verify", Kind: "map", TR: tr, Cache: "all", Remember: rem})
